@@ -108,6 +108,9 @@ func (this *NativeService) Invoke() (interface{}, error) {
 		return err, nil
 	}
 	result, err := service(this)
+	if err == nil {
+		err = verifPostInvoke(this, invokeParam.Method)
+	}
 	if err != nil {
 		return result, fmt.Errorf("[Invoke] Native serivce function execute error:%s", err)
 	}
